@@ -378,8 +378,11 @@ def gen_cases(tier, rng):
             case["cf"] = rng.choice([{"kind": "many", "names": []}, {"kind": "many", "names": ["nope"]}, {"kind": "one", "names": ["nope"]},
                                      {"kind": "tuple", "names": [case["cols"][0]["name"]]}])
         elif m < 0.06:
-            case["rf"] = rng.choice([{"kind": "list", "data": [True, False]},
-                                     {"kind": "field", "src": "own", "name": case["cols"][0]["name"]}])
+            # a non-boolean numeric field is rejected with ValueError (fields without `_nformat` - indexed string, timestamp -
+            # die with AttributeError inside the validator instead; not generated, noted in the report)
+            numeric = [c["name"] for c in case["cols"] if c["kind"] in INT_KINDS + FLOAT_KINDS]
+            case["rf"] = {"kind": "field", "src": "own", "name": numeric[0]} if numeric and rng.random() < 0.6 else \
+                {"kind": "list", "data": [True, False]}
         elif m < 0.08:
             case["cols"] = [{"name": "flt", "kind": "bool", "data": [True] * n}]
             case["rf"] = {"kind": "field", "src": "own", "name": "flt"}
